@@ -184,7 +184,16 @@ class CuckooDriver:
         ctx, o = self.ctx, self.obj
         fp = self.fp[k]
         calls0, kicks0, cap0 = self.sr.calls, self.sr.kicks, o.capacity
-        status, r = ctx.lib(self.noexc, o.add, k, allow=(self.Full,))
+        hot = self.counting and self.model.get(fp, 0) >= 0xFFFFFFFF
+        # a bin that already holds the largest count a 32-bit field can carry: the add may be refused (OverflowError, nothing
+        # changed) or leave the count pinned - it must not wrap
+        status, r = ctx.lib(self.noexc, o.add, k, allow=(self.Full, OverflowError) if hot else (self.Full,))
+        if hot and status == "exc" and isinstance(r, OverflowError):
+            self.feats.add("add_to_saturated_bin_refused")
+            return "refused"
+        if hot and status == "ok":
+            self.feats.add("add_to_saturated_bin_accepted")
+            return "refused"  # pinned: the model keeps the limit
         if self.sr.calls > calls0:
             self.feats.add("eviction_chain")
             n = self.sr.kicks - kicks0
@@ -236,6 +245,37 @@ class CuckooDriver:
                 self._mute = False
             self.feats.add("hit_kick_hit")
             return self.step(["remove" if op[2] % 2 else "add", self.pool.index(x)])
+        if kind == "hot":
+            # a bin whose count is at / just below the 32-bit limit, obtained the only practical way: by loading an export that
+            # holds it (a table "obtained by loading an export"); the key is then added again
+            import struct
+            present = [k for k in self.pool if self.model.get(self.fp[k], 0) > 0]
+            if not self.counting or not present:
+                return self.step(["add", op[1]])
+            x = present[op[1] % len(present)]
+            fpx = self.fp[x]
+            raw = bytearray(ctx.call(self.noexc, bytes, o))
+            done = False
+            for i in range((len(raw) - 8) // 8):
+                f, c = struct.unpack_from("II", raw, 8 * i)
+                if f == fpx and c == self.model[fpx]:
+                    struct.pack_into("I", raw, 8 * i + 4, 0xFFFFFFFF - op[2] % 3)
+                    done = True
+                    break
+            if not done:
+                return self.step(["add", op[1]])
+            new = ctx.call(self.noexc, self.K.frombytes, bytes(raw), None, self.hf)
+            new.fingerprint_size = self.case["fs"]
+            new.expansion_rate = self.case["rate"]
+            new.auto_expand = self.case["auto"]
+            self.obj = new
+            self.model[fpx] = 0xFFFFFFFF - op[2] % 3
+            self.feats.add("loaded_bin_near_32bit_limit")
+            ctx.op("hot", self.pool.index(x), op[2] % 3)
+            self.verify(f"after {op} (load)")
+            for _ in range(1 + op[2] % 3):
+                self.step(["add", self.pool.index(x)])
+            return
         if kind == "add":
             k = self.pool[op[1] % len(self.pool)]
             before = dict(self.model)
@@ -408,6 +448,8 @@ def case_strategy(tier, classes=("cuckoo", "counting"), allow_reload=False, max_
         bs = draw(st.integers(1, 3))
         swaps = draw(st.integers(1, 6))
         ops = [st.tuples(st.just("add"), ki)] * 8 + [st.tuples(st.just("remove"), ki)] * 2 + [st.tuples(st.just("hkh"), ki, st.integers(0, 47))]
+        if cls == "counting" and draw(st.integers(0, 2)) == 0:
+            ops.append(st.tuples(st.just("hot"), ki, st.integers(0, 8)))
         if draw(st.integers(0, 3)) == 0:
             ops.append(st.tuples(st.just("refused"), st.integers(0, 3)))
         if cls == "counting" and draw(st.integers(0, 3)) == 0:
